@@ -250,6 +250,32 @@ def check_series (c):
     observe.solve (m2)
     w2 = 2 * exact_of (loads [0], m2.f) [0]
     j.judge ('series.twice', abs ((complex (m2.sources [0].impedance) - z0) - w2) / (abs (z0) + abs (w2)), 1e-9 * max (cond, 1.0), 'one load registered twice on the feed pulse does not act as twice the load')
+    # the loaded object solved again and again at the same frequency (other source voltages each time, as in a study
+    # of drive levels): the loads stay what they are
+    v0 = complex (m1.sources [0].voltage)
+    for k in range (3):
+        m1.sources [0].voltage = v0 * (0.5 + k) * (1j ** k)
+        observe.solve (m1)
+        zk = complex (m1.sources [0].impedance)
+        j.judge ('series.recompute', abs (zk - z1) / abs (z1), 1e-9 * max (cond, 1.0), 'compute () number %d on the same object at the same frequency: feed impedance %r, first compute %r' % (k + 2, zk, z1), key = 'series-recompute')
+    # one load of every kind through the command line, each attached to another pulse, and the same circuit
+    # elements registered through the library on the same pulses: the load numbers of --attach-load count
+    # -l, --rlc-load, --trap-load, Laplace loads in this order (README)
+    N = len (m0.pulses)
+    if N >= 5:
+        kinds = [dict (k = 'z', z = [33.0, -12.0]), dict (k = 'rlc', R = 7.0, L = 2.2e-6, C = 4.7e-11), dict (k = 'trap', R = 0.8, L = 1.1e-6, C = 3.3e-11)
+                , dict (k = 'lap', a = [1.0, 2e-8], b = [15.0, 3e-6])]
+        sel   = [kinds [i] for i in rng.permutation (4) [: int (rng.integers (2, 5))]]
+        where = [int (x) for x in rng.permutation (N) [: len (sel)]]
+        sc = copy.deepcopy (spec)
+        sc ['loads'] = [dict (l, att = [[w + 1]]) for l, w in zip (sel, where)]
+        mc = gen.build (sc)
+        ma = gen.build (spec)
+        for l, w in zip (sel, where):
+            ma.register_load (load_object (l), w)
+        observe.solve (mc); observe.solve (ma)
+        za, zc = complex (ma.sources [0].impedance), complex (mc.sources [0].impedance)
+        j.judge ('kinds-by-number', abs (za - zc) / abs (za), 1e-9 * max (cond, 1.0) + 2e-6, 'loads %s on pulses %s: feed impedance %r through the command line, %r with the same elements registered through the library' % ([l ['k'] for l in sel], [w + 1 for w in where], zc, za), key = 'load-kinds-by-number')
     sig = 'series|%s|%s|%s' % ('+'.join (sorted (l ['k'] for l in loads)), fk, 'gnd' if m0.media is not None else 'free')
     return dict (status = 'violation' if j.viol else 'held', sig = sig, nontrivial = True, margin = j.worst, monitors = j.mon, violations = j.viol, info = dict (cond = cond))
 # end def check_series
